@@ -412,7 +412,9 @@ func cmdRun(args []string) {
 			seed = s
 		}
 	}
-	os.Exit(runProperty(plan, *tier, seed, *par, *scale, !*noShrink))
+	code := runProperty(plan, *tier, seed, *par, *scale, !*noShrink)
+	os.RemoveAll(scratchDir())
+	os.Exit(code)
 }
 
 func findPlan(id string) *PropertyPlan {
